@@ -4,6 +4,7 @@
 package reffam
 
 import (
+	"bytes"
 	"context"
 	"encoding/json"
 	"fmt"
@@ -15,6 +16,8 @@ import (
 	"sync"
 	"testing"
 
+	"github.com/opencontainers/go-digest"
+	ocispec "github.com/opencontainers/image-spec/specs-go/v1"
 	"oras.land/oras-go/v2/registry"
 	"oras.land/oras-go/v2/registry/remote"
 	"verif/harness/vh"
@@ -85,18 +88,27 @@ func (d *drv) url(ref registry.Reference) {
 		kind string
 		f    func()
 	}
-	calls := []call{
-		{"manifests", func() { repo.Manifests().Resolve(ctx, ref.Reference) }},
-		{"manifests", func() {
-			_, rc, err := repo.FetchReference(ctx, ref.Reference)
-			if err == nil {
-				rc.Close()
-			}
-		}},
-		{"manifests", func() { repo.Resolve(ctx, ref.String()) }},
-	}
+	// every spelling of the same reference that a Repository accepts
+	spell := []string{ref.Reference, ref.String()}
 	if _, err := ref.Digest(); err == nil {
-		calls = append(calls, call{"blobs", func() { repo.Blobs().Resolve(ctx, ref.Reference) }})
+		spell = append(spell, "sometag@"+ref.Reference, ref.Registry+"/"+ref.Repository+":sometag@"+ref.Reference)
+	}
+	body := []byte(`{"schemaVersion":2}`)
+	desc := ocispec.Descriptor{MediaType: ocispec.MediaTypeImageManifest, Digest: digest.FromBytes(body), Size: int64(len(body))}
+	var calls []call
+	for _, sp := range spell {
+		sp := sp
+		calls = append(calls,
+			call{"manifests", func() { repo.Manifests().Resolve(ctx, sp) }},
+			call{"manifests", func() {
+				_, rc, err := repo.FetchReference(ctx, sp)
+				if err == nil {
+					rc.Close()
+				}
+			}},
+			call{"manifests", func() { repo.Resolve(ctx, sp) }},
+			call{"manifests", func() { repo.PushReference(ctx, desc, bytes.NewReader(body), sp) }},
+		)
 	}
 	for _, c := range calls {
 		rec.reqs = nil
